@@ -1,4 +1,4 @@
 From Coq Require Import Extraction ExtrOcamlBasic.
-From AC Require Import Base.Sexp Model.Scalars.
-Definition dispatch := run_scalars.
+From AC Require Import Base.Sexp Model.ParseLogRun.
+Definition dispatch := run_parselog.
 Extraction "model.ml" dispatch.
